@@ -7,6 +7,7 @@ package zzc20
 import (
 	"context"
 	"io"
+	"strings"
 
 	proto "github.com/kubewharf/kubebrain-client/api/v2rpc"
 	"go.etcd.io/etcd/api/v3/etcdserverpb"
@@ -62,6 +63,14 @@ type world struct {
 // key draws an arbitrary byte string of length 0..2 (any byte values, also invalid UTF-8 and
 // bytes below the documented alphabet).
 func key(tag string) []byte {
+	if zzverif.Param("keymenu", 0) == 1 {
+		// pairs of requests: the request key is empty (no leading '/': the shapes the etcd shim
+		// refuses) or an ordinary key; the other byte strings are fixed
+		if strings.HasSuffix(tag, ".key") {
+			return [][]byte{{}, []byte("/r/a")}[zzverif.Choose(tag+".menu", 2)]
+		}
+		return []byte("/r/z")
+	}
 	n := zzverif.Choose(tag+".len", zzverif.Param("keylen", 2)+1)
 	return zzverif.Bytes(tag, n)
 }
